@@ -533,68 +533,229 @@ def check_w3(t, ser_ok, rd, mode, rep):
     rep.oblige(len(inv) == len(wmap))
     if rd is None:
         return
-    seen_else = False
-    rmap = {}
-    for r in rd:
-        if r.outcome == "panic":
-            continue
-        eqs = [s for s in r.selectors if s[0] == "eq"]
-        els = [s for s in r.selectors if s[0] == "else"]
-        for s_ in eqs + els:
-            nc = narrowing_cast(s_[1], r)
-            rep.oblige(nc is None)
-            if nc is not None:
-                rep.add("W3-narrow", "%s:%s" % (t.key, mode), "`%s` (%s): the tag is matched after a lossy cast (%s): foreign tags that agree on the low bits are mapped to a variant" % (t.key, mode, nc), t.loc)
-        if eqs:
-            s = eqs[0]
-            c = const_of(s[2])
-            av = strip_casts(s[1])
+    check_w3_reader(t, inv, rd, mode, rep)
+
+
+class _Unk(Exception):
+    pass
+
+
+def _wrap(n, ty):
+    if not (isinstance(ty, tuple) and ty and ty[0] == "prim" and ty[1] in INT_BITS):
+        raise _Unk()
+    bits = INT_BITS[ty[1]]
+    n &= (1 << bits) - 1
+    if ty[1].startswith("i") and n >= (1 << (bits - 1)):
+        n -= 1 << bits
+    return n
+
+
+def ev_int(v, x, k):
+    """Value of expression v when the value read as atom k is x (integers and booleans only)."""
+    if v == ("atom", k):
+        return x
+    if not isinstance(v, tuple) or not v:
+        raise _Unk()
+    h = v[0]
+    if h == "c":
+        if isinstance(v[1], bool):
+            return 1 if v[1] else 0
+        if isinstance(v[1], int):
+            return v[1]
+        raise _Unk()
+    if h == "namedc":
+        if isinstance(v[2], int):
+            return int(v[2])
+        raise _Unk()
+    if h in ("tryok", "unwrapped"):
+        return ev_int(v[1], x, k)
+    if h == "cast":
+        return _wrap(ev_int(v[1], x, k), v[2])
+    if h == "call" and v[1] in ("from", "into") and len(v[2]) == 1:
+        return ev_int(v[2][0], x, k)      # lossless by construction (From between integers)
+    if h == "un" and v[1] == "Not":
+        return 0 if ev_int(v[2], x, k) else 1
+    if h == "bin":
+        op = v[1]
+        l = ev_int(v[2], x, k)
+        if op == "And":
+            return 1 if (l and ev_int(v[3], x, k)) else 0
+        if op == "Or":
+            return 1 if (l or ev_int(v[3], x, k)) else 0
+        r = ev_int(v[3], x, k)
+        if op == "Eq":
+            return int(l == r)
+        if op == "Ne":
+            return int(l != r)
+        if op == "Lt":
+            return int(l < r)
+        if op == "Le":
+            return int(l <= r)
+        if op == "Gt":
+            return int(l > r)
+        if op == "Ge":
+            return int(l >= r)
+        if op == "BitAnd":
+            return l & r
+        if op == "BitOr":
+            return l | r
+        if op == "BitXor":
+            return l ^ r
+        if op == "Shr":
+            return l >> r
+        if op == "Rem" and r:
+            return l % r
+        # Add/Sub/Mul/Shl can wrap or panic: not part of any accepted idiom for a tag test
+        raise _Unk()
+    raise _Unk()
+
+
+def _consts_in(v, acc, depth=0):
+    if not isinstance(v, tuple) or depth > 12:
+        return
+    if v and v[0] == "c" and isinstance(v[1], int) and not isinstance(v[1], bool):
+        acc.add(v[1])
+    elif v and v[0] == "namedc" and isinstance(v[2], int):
+        acc.add(int(v[2]))
+    for y in v:
+        if isinstance(y, tuple):
+            _consts_in(y, acc, depth + 1)
+
+
+def tag_holds(r, k, x):
+    """Do all conditions of reader path r that depend on the tag (atom k) hold when the tag read is x?
+    Conditions that do not mention the tag are other run-time facts (payload, lengths) and are ignored."""
+    for c in r.raw.conds:
+        kind = c[0]
+        if kind in ("true", "false"):
+            if not mentions_atom(c[1], k):
+                continue
+            if bool(ev_int(c[1], x, k)) != (kind == "true"):
+                return False
+        elif kind == "eq":
+            if not mentions_atom(c[1], k):
+                continue
+            cv = const_of(c[2])
+            if cv is None:
+                raise _Unk()
+            if ev_int(c[1], x, k) != cv:
+                return False
+        elif kind == "else":
+            if not mentions_atom(c[1], k):
+                continue
+            val = ev_int(c[1], x, k)
+            for n_ in c[2]:
+                cv = const_of(n_[2])
+                if cv is None:
+                    raise _Unk()
+                if val == cv:
+                    return False
+    return True
+
+
+def check_w3_reader(t, inv, rd, mode, rep):
+    """Semantic tag table of one reader: for every representative tag value x, the set of reader paths whose
+    tag-dependent conditions hold at x is evaluated exactly (integer semantics incl. casts). Written tags must build
+    their own variant and nothing else; every other value must end in Err(InvalidTag(x)) on every path."""
+    live = [r for r in rd if r.atoms and r.atoms[0].k == "F" and r.atoms[0].atom is not None]
+    if not live:
+        rep.oblige(False)
+        rep.add("W3", "%s:%s:no-tag-read" % (t.key, mode), "`%s` (%s): no reader path reads a tag first" % (t.key, mode), t.loc)
+        return
+    tty = live[0].atoms[0].ty
+    if not (isinstance(tty, tuple) and tty[0] == "prim" and tty[1] in INT_BITS):
+        rep.oblige(False)
+        rep.add("W3", "%s:%s:tag-type" % (t.key, mode), "`%s` (%s): the tag is read as %s, not as an integer" % (t.key, mode, ty_str(tty)), t.loc)
+        return
+    bits = INT_BITS[tty[1]]
+    if bits <= 8:
+        dom = list(range(1 << bits))
+    else:
+        cs = set(inv)
+        for r in rd:
+            for c in r.raw.conds:
+                _consts_in(c, cs)
+        dom = set()
+        for c0 in cs | {0}:
+            for d in (-1, 0, 1):
+                dom.add(c0 + d)
+            for sh in (8, 16, 32):
+                dom.add(c0 + (1 << sh))       # values that agree with c0 after a narrowing cast
+        dom |= {(1 << bits) - 1, (1 << (bits - 1))}
+        dom = sorted(v for v in dom if 0 <= v < (1 << bits))
+    rep.count("tag_values_evaluated", len(dom))
+    reported = set()
+
+    def add(rule, key, msg):
+        if key not in reported:
+            reported.add(key)
+            rep.add(rule, key, msg, t.loc)
+
+    for x in dom:
+        try:
+            sat = [r for r in rd if r.atoms and r.atoms[0].atom is not None and tag_holds(r, r.atoms[0].atom, x)]
+        except _Unk:
+            rep.oblige(False)
+            add("W3", "%s:%s:opaque-tag-test" % (t.key, mode), "`%s` (%s): a condition on the tag is outside the integer comparisons the checker evaluates; the tag table cannot be decided" % (t.key, mode))
+            return
+        built = set()
+        rejected = False
+        for r in sat:
+            k = r.atoms[0].atom
             if r.outcome == "ok" and isinstance(r.value, tuple) and r.value and r.value[0] == "adt":
-                rmap[c] = r.value[2]
-                exp_v = inv.get(c)
-                ok = exp_v is not None and exp_v[0] == r.value[2]
-                rep.oblige(ok)
-                if exp_v is None:
-                    rep.add("W3", "%s:%s:tag%s" % (t.key, mode, c), "`%s` (%s): tag %s, which no variant writes, is mapped to variant %d" % (t.key, mode, c, r.value[2]), t.loc)
-                elif not ok:
-                    rep.add("W3", "%s:%s:tag%s" % (t.key, mode, c), "`%s` (%s): tag %s is written for variant %s but read back as variant index %d" % (t.key, mode, c, exp_v[1], r.value[2]), t.loc)
-        elif els or (r.outcome == "err" and r.atoms and r.atoms[0].atom is not None and len(r.atoms) == 1 and any(mentions_atom(d[0], r.atoms[0].atom) for d in r.dyn)):
-            # rejecting path: catch-all arm, or an explicit range test on the tag (`if tag > K { return Err(..) }`)
-            seen_else = True
-            av = strip_casts(els[0][1]) if els else ("atom", r.atoms[0].atom)
-            if r.outcome == "ok":
-                rep.oblige(False)
-                rep.add("W3", "%s:%s:catch-all" % (t.key, mode), "`%s` (%s): the catch-all arm of the tag match builds a value instead of rejecting the tag" % (t.key, mode), t.loc)
+                built.add(r.value[2])
+            elif r.outcome == "ok":
+                built.add(None)
             elif r.outcome == "err":
                 ev = r.value
                 if isinstance(ev, tuple) and ev and ev[0] == "into":
                     ev = ev[1]
-                ok = False
-                why = "error is not InvalidTag"
-                if isinstance(ev, tuple) and ev and ev[0] == "adt" and ev[1] == ERR:
-                    vname = variant_name(t, ERR, ev[2])
-                    if vname == "InvalidTag":
-                        praw = dict(ev[3]).get(0)
-                        payload = strip_casts(praw)
-                        if payload == av and narrowing_cast(praw, r) is None:
-                            ok = True
-                        elif payload == av:
-                            why = "InvalidTag carries a truncated copy of the tag (%s)" % narrowing_cast(praw, r)
-                        else:
-                            why = "InvalidTag carries %s instead of the tag that was read (%s)" % (vs(payload), vs(av))
-                    else:
-                        why = "error variant is %s" % vname
-                rep.oblige(ok)
-                if not ok:
-                    rep.add("W3-payload", "%s:%s" % (t.key, mode), "`%s` (%s): foreign tags are not rejected with the offending tag: %s" % (t.key, mode, why), t.loc)
-    for c, (vi, name) in inv.items():
-        ok = rmap.get(c) == vi
-        if c not in rmap:
-            rep.oblige(False)
-            rep.add("W3", "%s:%s:variant%s" % (t.key, mode, vi), "`%s` (%s): tag %d written for variant %s is not accepted by the reader" % (t.key, mode, c, name), t.loc)
-    rep.oblige(seen_else)
-    if not seen_else:
-        rep.add("W3", "%s:%s:no-else" % (t.key, mode), "`%s` (%s): the tag match has no rejecting arm" % (t.key, mode), t.loc)
+                is_reject = len(r.atoms) == 1
+                if isinstance(ev, tuple) and ev and ev[0] == "adt" and ev[1] == ERR and variant_name(t, ERR, ev[2]) == "InvalidTag":
+                    rejected = True
+                    praw = dict(ev[3]).get(0)
+                    try:
+                        pv = ev_int(praw, x, k)
+                    except _Unk:
+                        pv = None
+                    if x not in inv:
+                        ok = pv == x
+                        rep.oblige(ok)
+                        if not ok:
+                            nc = narrowing_cast(praw, r)
+                            why = ("InvalidTag carries a truncated copy of the tag (%s)" % nc) if nc else ("InvalidTag carries %s instead of the tag that was read (%s)" % (vs(strip_casts(praw)), vs(("atom", k))))
+                            add("W3-payload", "%s:%s" % (t.key, mode), "`%s` (%s): foreign tags are not rejected with the offending tag: %s (tag %d -> payload %s)" % (t.key, mode, why, x, pv))
+                elif is_reject and x not in inv:
+                    rejected = True
+                    rep.oblige(False)
+                    add("W3-payload", "%s:%s" % (t.key, mode), "`%s` (%s): foreign tags are not rejected with the offending tag: error is not InvalidTag" % (t.key, mode))
+            elif r.outcome == "panic" and x not in inv and any(c[0] in ("true", "false", "eq", "else") and mentions_atom(c[1], k) for c in r.raw.conds):
+                rep.oblige(False)
+                add("W3", "%s:%s:foreign-panics" % (t.key, mode), "`%s` (%s): a tag no variant writes (e.g. %d) reaches a panic instead of Err(InvalidTag)" % (t.key, mode, x))
+        if x in inv:
+            vi, name = inv[x]
+            ok = built == {vi} and not rejected
+            rep.oblige(ok)
+            if vi not in built:
+                if built:
+                    add("W3", "%s:%s:tag%s" % (t.key, mode, x), "`%s` (%s): tag %s is written for variant %s but read back as variant index %s" % (t.key, mode, x, name, sorted(built, key=str)))
+                else:
+                    add("W3", "%s:%s:variant%s" % (t.key, mode, vi), "`%s` (%s): tag %d written for variant %s is not accepted by the reader" % (t.key, mode, x, name))
+            elif len(built) > 1:
+                add("W3", "%s:%s:tag%s" % (t.key, mode, x), "`%s` (%s): tag %s (variant %s) can also be read back as variant index %s" % (t.key, mode, x, name, sorted(built - {vi}, key=str)))
+            elif rejected:
+                add("W3", "%s:%s:variant%s" % (t.key, mode, vi), "`%s` (%s): tag %d written for variant %s can be rejected as InvalidTag" % (t.key, mode, x, name))
+        else:
+            ok = not built and rejected
+            rep.oblige(ok)
+            if built:
+                low = [c0 for c0 in inv if c0 != x and any((x - c0) % (1 << sh) == 0 for sh in (8, 16, 32))]
+                if low and x > max(inv) + 1:
+                    add("W3-narrow", "%s:%s" % (t.key, mode), "`%s` (%s): the tag is matched after a lossy cast: the foreign tag %d, which agrees with tag %d on the low bits, is mapped to variant index %s" % (t.key, mode, x, low[0], sorted(built, key=str)))
+                else:
+                    add("W3", "%s:%s:foreign" % (t.key, mode), "`%s` (%s): tag %d, which no variant writes, is mapped to variant index %s instead of being rejected" % (t.key, mode, x, sorted(built, key=str)))
+            elif not rejected:
+                add("W3", "%s:%s:no-else" % (t.key, mode), "`%s` (%s): no path rejects the foreign tag %d with InvalidTag" % (t.key, mode, x))
 
 
 _variant_names = {}
